@@ -275,6 +275,7 @@ fn unmetered_message(req: &str) -> Option<Vec<u8>> {
         "de.decode" => Some(0), // also under quotas: the specification's answer is computed without them
         "nat.decode" | "nat.decodeU" | "nat.bounded" => Some(1),
         "nat.check" | "nat.checkU" => Some(2),
+        "nat.mirror" | "nat.mirrorU" | "nat.mirrorQ" => Some(2),
         _ => None,
     };
     sexp::unhx(args.get(at?)?)
